@@ -91,14 +91,17 @@ Definition np_unique {A : Type} (eqb ltb : A -> A -> bool) (l : list A) : list A
   fold_right (uniq_insert eqb ltb) [] l.
 
 (** * FeatureCoverInjector.__call__
-    [n = sample_size // len(unique)]; [groupby(col).sample(n)] returns the sampled rows group by
+    [n = sample_size // n_groups if n_groups else 0]; [groupby(col).sample(n)] returns the sampled rows group by
     group (groups in ascending key order); [idxs] are the row labels it returned (oracle);
     then the column is dropped and the index reset. *)
 Definition remove_col {B : Type} (col : Z) (r : list B) : list B :=
   sel_from (fun j => negb (j =? col)) 0 r.
 Definition cover_n {A : Type} (eqb ltb : A -> A -> bool) (dflt : A) (col sample_size : Z)
   (d : list (list A)) : Z :=
-  sample_size / len (np_unique eqb ltb (column dflt col d)).
+  match np_unique eqb ltb (column dflt col d) with
+  | [] => 0                                   (* [n_groups = 0]: data without rows *)
+  | classes => sample_size / len classes
+  end.
 Definition feature_cover {A : Type} (col : Z) (idxs : list Z) (d : list (list A)) : list (list A) :=
   map (fun i => remove_col col (nthZ i d [])) idxs.
 
@@ -200,14 +203,15 @@ Definition has_key (k : FN) (dc : dict) : bool :=
 Definition undefined_classes (all : list FN) (cp : dict) : list FN :=
   filter (fun k => negb (has_key k cp)) all.
 
-(** [None] = ValueError (probabilities exceed 1 / class not found in the data) *)
-Definition fill_probabilities (all : list FN) (cp : dict) : option dict :=
+(** [None] = ValueError (probabilities exceed 1 / class not found in the data);
+    [tol] is the literal [1e-9] of [sum(...) > 1.0 + 1e-9]; [missing = max(0.0, 1 - sum(...))] *)
+Definition fill_probabilities (tol : FN) (all : list FN) (cp : dict) : option dict :=
   let undef := undefined_classes all cp in
   let s := pysum (map snd cp) in
-  if f1 <? s then None
+  if (f1 + tol) <? s then None
   else if negb (forallb (fun kv => existsb (feqb (fst kv)) all) cp) then None
   else
-    let missing := f1 - s in
+    let missing := pymax f0 (f1 - s) in
     Some (cp ++ map (fun uc => (uc, missing / fofZ (len undef))) undef).
 
 (** [(n and p / n) or 0] *)
@@ -217,10 +221,11 @@ Definition p_individual (pc : FN) (cnt : Z) : FN :=
 Definition p_blocks (pcs : list (FN * Z)) : list FN :=
   flat_map (fun pc => repeat (p_individual (fst pc) (snd pc)) (Z.to_nat (snd pc))) pcs.
 Definition p_leftover (p : list FN) : FN := (f1 - pysum p) / fofZ (len p).
+(** [[max(p + p_leftover, 0.0) for p in ...]] *)
 Definition p_final (pcs : list (FN * Z)) : list FN :=
   let p := p_blocks pcs in
   let lo := p_leftover p in
-  map (fun x => x + lo) p.
+  map (fun x => pymax (x + lo) f0) p.
 
 (** requested probability and window count of every class, in np.unique order *)
 Definition class_table (from to col : Z) (all : list FN) (cp : dict) (d : list (list FN))
@@ -229,9 +234,10 @@ Definition class_table (from to col : Z) (all : list FN) (cp : dict) (d : list (
                  len (cls_idx feqb f0 from to col c d))) all.
 
 (** the vector handed to np.random.choice ([[]] when the window holds no row) *)
-Definition p_distribution (from to col : Z) (cp : dict) (d : list (list FN)) : option (list FN) :=
+Definition p_distribution (tol : FN) (from to col : Z) (cp : dict) (d : list (list FN))
+  : option (list FN) :=
   let all := np_unique feqb fltb (column f0 col d) in
-  match fill_probabilities all cp with
+  match fill_probabilities tol all cp with
   | None => None
   | Some cp' =>
       match p_blocks (class_table from to col all cp' d) with
@@ -242,9 +248,9 @@ Definition p_distribution (from to col : Z) (cp : dict) (d : list (list FN)) : o
 
 (** the whole call: [None] = ValueError (also the one np.random.choice raises for a vector with a
     negative entry); [positions] = the draws of np.random.choice *)
-Definition label_probability (from to col : Z) (cp : dict) (positions : list Z)
+Definition label_probability (tol : FN) (from to col : Z) (cp : dict) (positions : list Z)
   (d : list (list FN)) : option (list (list FN)) :=
-  match p_distribution from to col cp d with
+  match p_distribution tol from to col cp d with
   | None => None
   | Some p =>
       if existsb (fun x => x <? f0) p then None
@@ -252,9 +258,9 @@ Definition label_probability (from to col : Z) (cp : dict) (positions : list Z)
   end.
 
 (** ** LabelDirichletInjector.__call__ : [dir] = the draw of np.random.dirichlet(alpha.values()) *)
-Definition label_dirichlet (from to col : Z) (alpha_keys : list FN) (dir : list FN)
+Definition label_dirichlet (tol : FN) (from to col : Z) (alpha_keys : list FN) (dir : list FN)
   (positions : list Z) (d : list (list FN)) : option (list (list FN)) :=
-  label_probability from to col (combine alpha_keys dir) positions d.
+  label_probability tol from to col (combine alpha_keys dir) positions d.
 
 End Numeric.
 
@@ -311,27 +317,24 @@ Definition call_brownian {L : Type} (N : Num) (leqb : L -> L -> bool)
   (fr : frame L (F N)) (from to : Z) (c : colref L) (x0 : F N) (signs : list Z)
   : option (frame L (F N)) :=
   call1 leqb fr c (fun i r => Some (brownian N from to i x0 signs r)).
-Definition call_label_probability {L : Type} (N : Num) (leqb : L -> L -> bool)
+Definition call_label_probability {L : Type} (N : Num) (leqb : L -> L -> bool) (tol : F N)
   (fr : frame L (F N)) (from to : Z) (c : colref L) (cp : dict N) (positions : list Z)
   : option (frame L (F N)) :=
-  call1 leqb fr c (fun i r => label_probability N from to i cp positions r).
-Definition call_label_dirichlet {L : Type} (N : Num) (leqb : L -> L -> bool)
+  call1 leqb fr c (fun i r => label_probability N tol from to i cp positions r).
+Definition call_label_dirichlet {L : Type} (N : Num) (leqb : L -> L -> bool) (tol : F N)
   (fr : frame L (F N)) (from to : Z) (c : colref L) (keys dir : list (F N)) (positions : list Z)
   : option (frame L (F N)) :=
-  call1 leqb fr c (fun i r => label_dirichlet N from to i keys dir positions r).
+  call1 leqb fr c (fun i r => label_dirichlet N tol from to i keys dir positions r).
 (** FeatureCoverInjector: the column label disappears together with the column.
-    [None]: ZeroDivisionError on a data set without rows, pandas' ValueError for a negative [n] or
-    for a group with fewer than [n] rows (sampling without replacement). *)
+    [None]: pandas' ValueError for a negative [n] or for a group with fewer than [n] rows
+    (sampling without replacement). *)
 Definition group_size {A : Type} (eqb : A -> A -> bool) (dflt : A) (col : Z) (d : list (list A)) (c : A) : Z :=
   len (idx_from (fun _ r => eqb (nthZ col r dflt) c) 0 d).
 Definition cover_raises {A : Type} (eqb ltb : A -> A -> bool) (dflt : A) (col sample_size : Z)
   (d : list (list A)) : bool :=
   let classes := np_unique eqb ltb (column dflt col d) in
   let n := cover_n eqb ltb dflt col sample_size d in
-  match classes with
-  | [] => true
-  | _ => (n <? 0) || existsb (fun c => group_size eqb dflt col d c <? n) classes
-  end.
+  (n <? 0) || existsb (fun c => group_size eqb dflt col d c <? n) classes.
 Definition call_cover {L A : Type} (leqb : L -> L -> bool) (eqb ltb : A -> A -> bool) (dflt : A)
   (fr : frame L A) (c : colref L) (sample_size : Z) (idxs : list Z) : option (frame L A) :=
   match resolve leqb fr c with
